@@ -7,8 +7,10 @@ calculate_worker_assignments; (c) every parallel element with every subset of su
 """
 import itertools
 
-from checks import sched_common as sc
-from mc import par
+from mc import loadgen  # noqa: F401  (first: installs the virtual clock before esrally is imported)
+
+from checks import sched_common as sc  # noqa: E402
+from mc import par  # noqa: E402
 from mc.core import Result
 
 ID = "C02"
@@ -18,7 +20,9 @@ RULE = (
     "each sub-task}); schedules: each element alone / preceded / followed by a task with m in 1..6 clients (an element's allocation "
     "depends on the rest of the schedule only through the maximum client count), all schedules of length <= 3 over a reduced "
     "alphabet; every parallel element of the grammar between two tasks with every non-empty subset of its sub-tasks excluded by the real "
-    "task filter (elements left empty by filters are whatever the real filters leave; more filter forms in C11 with these invariants); layouts: every list of 1..3 (thorough 4) hosts with cores from "
+    "task filter (elements left empty by filters are whatever the real filters leave; more filter forms in C11 with these invariants); wire layer: 11 schedules, every column of the real allocation matrix through the real AsyncIoAdapter.run "
+    "(schedule_for, parameter-source partitioning) of one worker on the virtual loop -- every client index of every task on the wire with exactly its iterations, issued by the client "
+    "the matrix names; start_benchmark under two host layouts hands client c row c; layouts: every list of 1..3 (thorough 4) hosts with cores from "
     "the core alphabet x every client count. non-trivial = schedule with a parallel element or layout with > 1 worker; distinct = spec"
 )
 ASSUMPTIONS = [
@@ -80,11 +84,13 @@ def check_schedule(spec, res):
         elif w:
             v = w
     if v is None and schedule:
-        w = sc.check_start_benchmark(schedule)
-        if w == "skipped":
-            res.count("start_benchmark_oracle_skipped")
-        elif w:
-            v = w
+        # two layouts of load-driver hosts: at most one client per worker, and one worker simulating every client
+        for hosts in (None, [{"host": "localhost", "cores": 1}]):
+            w = sc.check_start_benchmark(schedule, hosts)
+            if w == "skipped":
+                res.count("start_benchmark_oracle_skipped")
+            elif w and v is None:
+                v = w
     res.case(
         case_repr={"schedule": spec} if res.sample_now(3001) else None,
         nontrivial_key=("s", repr(spec)) if any(el[0] == "P" for el in spec) else None,
@@ -202,6 +208,78 @@ def check_layout(cores, clients, res):
         res.violation(f"workers:{v[0]}", f"hosts cores={list(cores)} clients={clients}: {v[1]}", {"kind": "layout", "cores": list(cores), "clients": clients})
 
 
+WIRE_SPECS = [
+    [("T", 1)],
+    [("T", 2)],
+    [("T", 3)],
+    [("T", 2), ("T", 3)],
+    [("P", None, [1, 2], None)],
+    [("P", None, [2, 2], None)],
+    [("P", None, [3, 1], None), ("T", 2)],
+    [("P", 2, [2, 2, 1], None)],
+    [("P", 1, [1, 2], None)],
+    [("P", 4, [1, 2], None)],
+    [("T", 4), ("P", 3, [2, 3], None)],
+]
+WIRE_ITER = 2
+
+
+def check_wire(spec, res):
+    """where the client indices end up: every column of the real Allocator's matrix through the real AsyncIoAdapter.run of one worker
+    (real schedule_for, real parameter-source partitioning) -- on the wire of the simulated cluster every client index of every task
+    shows up with exactly its iterations, issued by the client the matrix gave it to"""
+    import collections
+
+    from esrally.driver import driver
+    from esrally.track import track
+
+    loadgen.setup()
+    schedule, tasks = [], {}
+    for k, el in enumerate(spec):
+        if el[0] == "T":
+            t = loadgen.make_task(f"e{k}", f"e{k}", clients=el[1], iterations=WIRE_ITER)
+            tasks[f"e{k}"] = t
+            schedule.append(t)
+        else:
+            subs = []
+            for j, c in enumerate(el[2]):
+                t = loadgen.make_task(f"e{k}_{j}", f"e{k}_{j}", clients=c, iterations=WIRE_ITER)
+                tasks[f"e{k}_{j}"] = t
+                subs.append(t)
+            schedule.append(track.Parallel(subs, clients=el[1]))
+    rows = driver.Allocator(schedule).allocations
+    v = None
+    seen = collections.Counter()
+    for col in range(len(rows[0])):
+        allocs = [(cid, row[col]) for cid, row in enumerate(rows) if isinstance(row[col], driver.TaskAllocation)]
+        if not allocs:
+            continue
+        r = loadgen.run_worker(allocs, lambda entry: {"service_time": 1.0, "body": {"ok": True}})
+        if r.error is not None or r.loop_errors:
+            v = ("worker-raises", f"column {col}: {type(r.error).__name__ if r.error else ''}: {r.error} {r.loop_errors[:1]}")
+            break
+        owner = {(ta.task.name, ta.client_index_in_task): cid for cid, ta in allocs}
+        for e in r.log:
+            _, _, key, ci, _k, _w = e["target"].split("/")
+            seen[(key, int(ci))] += 1
+            if owner.get((key, int(ci))) != e["client_id"]:
+                v = ("index-on-wrong-client", f"column {col}: client {e['client_id']} issued a request as index {ci} of task {key}; the matrix gives that index to client {owner.get((key, int(ci)))}")
+                break
+        if v:
+            break
+    if v is None:
+        want = collections.Counter({(name, i): WIRE_ITER for name, t in tasks.items() for i in range(t.clients)})
+        if seen != want:
+            v = ("indices-executed", f"requests per (task, client index) on the wire {dict(sorted(seen.items()))}, expected {dict(sorted(want.items()))}")
+    res.case(
+        case_repr={"schedule": spec, "layer": "wire"},
+        nontrivial_key=("w", repr(spec)),
+        outcome_key=("w", v[0] if v else "ok", len(rows)),
+    )
+    if v:
+        res.violation(f"wire:{v[0]}", f"schedule {spec}: {v[1]}", {"kind": "wire", "spec": spec})
+
+
 def _shard(arg):
     import logging
 
@@ -213,6 +291,8 @@ def _shard(arg):
             check_schedule(it, res)
         elif kind == "f":
             check_filtered(it[0], it[1], res)
+        elif kind == "w":
+            check_wire(it, res)
         else:
             check_layout(it[0], it[1], res)
     return res
@@ -231,7 +311,9 @@ def run(tier, seed):
     filtered = list(filtered_cases(tier))
     jobs = [("s", ch) for ch in par.chunks(specs, par.NPROC * 2)] + [("l", ch) for ch in par.chunks(layouts, par.NPROC)]
     jobs += [("f", ch) for ch in par.chunks(filtered, par.NPROC)]
+    jobs += [("w", [w]) for w in WIRE_SPECS]
     res = par.pmap(_shard, jobs, seed=seed)
+    res.extra["wire_schedules"] = len(WIRE_SPECS)
     res.extra["schedules"] = len(specs)
     res.extra["layouts"] = len(layouts)
     res.extra["filtered_schedules"] = len(filtered)
@@ -245,6 +327,9 @@ def replay(data):
     if data["kind"] == "filtered":
         spec = [tuple(e) if e[0] == "T" else (e[0], e[1], list(e[2]), e[3]) for e in data["spec"]]
         check_filtered(spec, [d if isinstance(d, str) else f"e1_{d}" for d in data["drop"]], res)
+    elif data["kind"] == "wire":
+        spec = [tuple(e) if e[0] == "T" else (e[0], e[1], list(e[2]), e[3]) for e in data["spec"]]
+        check_wire(spec, res)
     elif data["kind"] == "schedule":
         spec = [tuple(e) if e[0] == "T" else (e[0], e[1], list(e[2]), e[3]) for e in data["spec"]]
         check_schedule(spec, res)
